@@ -150,6 +150,11 @@ static int run_peaceman(const std::string& in, const std::string& out) {
 }
 
 // ---- histories ----
+// Peaceman denominator of a history-mode connection at skin 0: 2 pi * Kh / CF with Kh = 100 rec mD.m, CF = 10 rec cP.rm3/day/bar
+static const double SkinOne = [] {
+    const auto us = Opm::UnitSystem::newMETRIC();
+    return 2.0 * 3.14159265358979323846 * us.to_si(Opm::UnitSystem::measure::effective_Kh, 100.0) / us.to_si(Opm::UnitSystem::measure::transmissibility, 10.0);
+}();
 static std::string sel_items(const json& s, int hi, int hj, bool wpimult) {
     auto n = [](int v) { return v == 0 ? std::string("1*") : std::to_string(v); };
     if (s["k"].get<int>() >= 100) {          // a cell of the well with laterals, given in full
@@ -192,6 +197,13 @@ static int run_history(const std::string& in, const std::string& out) {
                 } else if (o["op"] == "COMPLUMP") {
                     auto n = [](int v) { return v == 0 ? std::string("1*") : std::to_string(v); };
                     d << "COMPLUMP\n '" << w << "' 1* 1* " << n(o["k1"]) << " " << n(o["k2"]) << " " << o["n"] << " /\n/\n";
+                } else if (o["op"] == "CSKIN") {
+                    auto n = [](int v) { return v == 0 ? std::string("1*") : std::to_string(v); };
+                    // skin 1 = a skin factor equal to the Peaceman denominator these connections have at skin 0
+                    // (CF = 10 rec, Kh = 100 rec: the denominator is 2 pi Kh / CF in SI, the same for every record)
+                    char sbuf[40];
+                    std::snprintf(sbuf, sizeof sbuf, "%.17g", o["skin"].get<int>() == 1 ? SkinOne : 0.0);
+                    d << "CSKIN\n '" << w << "' 1* 1* " << n(o["k1"]) << " " << n(o["k2"]) << " " << sbuf << " /\n/\n";
                 } else if (o["op"] == "WPIMULT") {
                     d << "WPIMULT\n '" << w << "' " << o["f"] << " " << sel_items(o["sel"], h, h, true) << " /\n/\n";
                 } else {
@@ -217,12 +229,16 @@ static int run_history(const std::string& in, const std::string& out) {
                         const double kh = us.from_si(UnitSystem::measure::effective_Kh, c.Kh()) / 100.0;
                         const double cf = us.from_si(UnitSystem::measure::transmissibility, c.CF()) / 10.0;
                         const long rec = std::lround(kh);
-                        const long mult = rec > 0 ? std::lround(cf / rec) : -1;
-                        const bool exact = std::abs(kh - rec) < 1e-9 * std::max(1.0, kh) && std::abs(cf - double(rec * mult)) < 1e-9 * std::max(1.0, cf);
+                        // a connection with the CSKIN skin has half the factor
+                        const int skin = c.skinFactor() > 1e-12 ? 1 : 0;
+                        const double cfu = cf * (skin ? 2.0 : 1.0);
+                        const long mult = rec > 0 ? std::lround(cfu / rec) : -1;
+                        const bool exact = std::abs(kh - rec) < 1e-9 * std::max(1.0, kh) && std::abs(cfu - double(rec * mult)) < 1e-7 * std::max(1.0, cfu)
+                                           && (skin == 0 || std::abs(c.skinFactor() - SkinOne) < 1e-9);
                         lst.push_back({{"k", free(w) ? 100 * (c.getI() + 1) + 10 * (c.getJ() + 1) + c.getK() + 1 : c.getK() + 1},
                                        {"ijhead", free(w) || (c.getI() + 1 == head(w) && c.getJ() + 1 == head(w))}, {"complnum", c.complnum()},
                                        {"sort", int(c.sort_value())}, {"state", Opm::Connection::State2String(c.state())},
-                                       {"rec", exact ? rec : -1}, {"mult", exact ? mult : -1}});
+                                       {"rec", exact ? rec : -1}, {"mult", exact ? mult : -1}, {"skin", skin}});
                     }
                     obs[w] = lst;
                 }
